@@ -20,4 +20,9 @@ CLAIMED = {
   text="All ordered pairs of the enumerated dpkg-valid universe are compared on the real code and must give the reference sign; the reference is a straight port of dpkg's algorithm whose agreement with the installed dpkg is re-established by replaying the same universe (thorough tier).",
   note="Trusted base: the Go port (engine/ref/debian.go) and the installed dpkg 1.21.22 used to validate it. Strings outside the enumerated universe are not covered.",
   ref="DESIGN.md 4 (C10), Appendix A.3"),
+ "C11": dict(
+  technique="bounded-exhaustive enumeration of rpm version strings (token grammar, rpm's own vectors, all strings <= L) x all ordered pairs on the real Compare against a Go port of rpmvercmp",
+  text="All ordered pairs of the enumerated universe are compared on the real code and must give the sign of the rpmvercmp port applied to epoch, version and release; disagreements are attributed to a listed finding only when the reference's deciding rule and the observed sign match the finding exactly.",
+  note="Trusted base: the Go port of rpmvercmp (engine/ref/rpm.go), asserted on every run against rpm's documented test vectors; no executable rpm exists in this image. Missing-vs-present release uses rpmVersionCompare's convention; '~'-leading releases there are not claimed.",
+  ref="DESIGN.md 4 (C11), Appendix A.4"),
 }
